@@ -300,9 +300,13 @@ Inductive io_op :=
 | OExportFunctionRange (p : nat) (header : list (@line T)) (func : T -> T) (xmin xmax : T) (steps : nat) (dims : list T) (logarithmic : bool)
 | OImportList (p : nat) (dim : T) (ignored : nat)
 | OImportTable (p : nat) (dims : list T) (ignored : nat)
-| OCountLines (p : nat).
+| OCountLines (p : nat)
+| OFileExists (p : nat).
 
-Inductive io_out := RUnit | RList (l : list T) | RTable (t : list (list T)) | RCount (n : Z).
+Inductive io_out := RUnit | RList (l : list T) | RTable (t : list (list T)) | RCount (n : Z) | RBool (b : bool).
+
+(** File_Exists: stat() on the path succeeds, i.e. the path holds a file; nothing is opened, nothing is changed *)
+Definition file_exists (f : option (@file T)) : bool := match f with Some _ => true | None => false end.
 
 Definition io_step (fs : fsys) (o : io_op) : res (fsys * io_out) :=
   match o with
@@ -314,6 +318,7 @@ Definition io_step (fs : fsys) (o : io_op) : res (fsys * io_out) :=
   | OImportList p dim ign => rbind (import_list Ops (fs_get fs p) dim ign) (fun l => Ok (fs, RList l))
   | OImportTable p dims ign => rbind (import_table Ops (fs_get fs p) dims ign) (fun t => Ok (fs, RTable t))
   | OCountLines p => Ok (fs, RCount (count_lines (fs_get fs p)))
+  | OFileExists p => Ok (fs, RBool (file_exists (fs_get fs p)))
   end.
 
 Fixpoint io_run (fs : fsys) (ops : list io_op) : res (fsys * list io_out) :=
